@@ -20,10 +20,10 @@ def P(name, quick, thorough, **kw):
 E_ENV = "environment model of the node (DESIGN Appendix C): account handles by shard, rollback on error, exactly-once delivery, refund construction, system-contract discipline"
 
 PROPS = {
-    "C01": dict(profiles=[P("transfers", 3000, 400000), P("nonces", 1500, 80000)], fields=["status", "diff", "xf"], oracle_props=["C01", "C02"],
+    "C01": dict(profiles=[P("transfers", 3000, 400000), P("nonces", 1500, 80000), P("onechain", 500, 30000, seeds_quick=1)], fields=["status", "diff", "xf"], oracle_props=["C01", "C02"],
                 assumptions=[E_ENV, "destination is never the system account 0xff..ff (global-settings store)"]),
     # a transfer that changes a world total is a supply violation too (the oracle files it under C01)
-    "C02": dict(profiles=[P("supply", 3000, 300000), P("transfers", 1500, 100000)], fields=["status", "diff"], oracle_props=["C02", "C01"],
+    "C02": dict(profiles=[P("supply", 3000, 300000), P("transfers", 1500, 100000), P("onechain", 500, 30000, seeds_quick=1)], fields=["status", "diff"], oracle_props=["C02", "C01"],
                 assumptions=[E_ENV]),
     "C03": dict(profiles=[P("authority", 3000, 300000)], fields=["status", "diff"],
                 assumptions=[E_ENV, "hand-over messages are delivered with caller = previous holder (as the repository's own cross-shard test does)"]),
@@ -36,7 +36,7 @@ PROPS = {
     "C07": dict(profiles=[P("nonces", 3000, 300000)], fields=["status", "diff", "ret", "xf"],
                 assumptions=[E_ENV, "single-creator discipline; counter < 2^64-1; exactly-once delivery of hand-over messages"]),
     "C08": dict(profiles=[P("metadata", 3000, 160000)], fields=["status", "diff", "xf", "logs"], assumptions=[E_ENV]),
-    "C09": dict(profiles=[P("transfers", 3000, 300000), P("gates", 1000, 100000)], fields=["status", "diff"],
+    "C09": dict(profiles=[P("transfers", 3000, 300000), P("gates", 1000, 100000), P("onechain", 500, 30000, seeds_quick=1)], fields=["status", "diff"],
                 assumptions=[E_ENV]),
     "C10": dict(profiles=[P("transfers", 3000, 300000), P("parsers", 3000, 400000), P("metadata", 1500, 80000)], fields=["status", "xf", "diff"],
                 assumptions=[E_ENV, "attached function names are non-empty and contain no '@' (C12 carve-out)"]),
@@ -48,7 +48,7 @@ PROPS = {
                 assumptions=["runtime aspects (map iteration order, goroutines, slice aliasing) are outside any Lean model (partial): decided by run-vs-run comparison on the implementation plus the regenerated zero-spare-capacity fact"]),
     "C14": dict(profiles=[P("codec", 20000, 400000)], fields=["status"], strict=True),
     # xf: the hand-over message carries the counter the next holder will hold (the "counter ≥ issued nonces" clause)
-    "C15": dict(profiles=[P("supply", 2000, 200000), P("transfers", 2000, 200000), P("nonces", 1000, 100000)],
+    "C15": dict(profiles=[P("supply", 2000, 200000), P("transfers", 2000, 200000), P("nonces", 1000, 100000), P("onechain", 500, 30000, seeds_quick=1)],
                 fields=["status", "diff", "xf"], assumptions=[E_ENV]),
     "C16": dict(profiles=[P("gas", 3000, 400000, seeds_quick=2)], fields=["status", "gas", "xf"],
                 assumptions=["gas maps never spell one field in two different cases (mapstructure would depend on map order)"]),
